@@ -231,7 +231,7 @@ def run(ctx):
                                  float(np.max(np.abs(np.asarray(solb.q[-1])[b] + np.asarray(sol.q[0])[b]))))) if len(quat_blocks(system)) == 1 else dq
             du = float(np.max(np.abs(np.asarray(solb.u[-1]) + np.asarray(sol.u[0]))))
             val = max(dq, du)
-            c = classify(val, 1e-7, 1e-5)
+            c = classify(val, 1e-8, 5e-8)       # (the unchanged solver returns to within 4e-10 on these systems; a scheme that is reversible only to O(dt^3) misses by 1e-7 .. 1e-6)
             add(dict(step=nsteps, tag=dict(system=si, kind=kind, dt=dt, run="there and back"), vals={"reversible": val}, violated=["reversible"] if c == "violated" else [],
                      borderline=c == "borderline"), dict(where, run="there and back", vals={"reversible": val}))
         except Exception as ex:
@@ -293,8 +293,8 @@ def run(ctx):
                     "states": sum(s.distinct for s in stats) + rt.distinct, "transitions": max(sum(s.generated for s in stats) + rt.generated, 1),
                     "traces_validated_against_impl": len(records), "samples": [{k: records[0][k] for k in ("step", "vals", "tag")}], "records": kinds, "borderline": nb,
                     "not_judged": notjudged}
-    ctx.assumptions = ["solver tolerances 1e-11; stage residuals 'ok' below 1e-8, 'violated' above 1e-6; the forward-backward return 'ok' below 1e-7, 'violated' above 1e-5 "
-                       "(a non-reversible second-order scheme returns with an error of order dt^2 ~ 1e-4)",
+    ctx.assumptions = ["solver tolerances 1e-11; stage residuals 'ok' below 1e-8, 'violated' above 1e-6; the forward-backward return 'ok' below 1e-8, 'violated' above 5e-8 "
+                       "(the unchanged solver returns to within 4e-10 over 30 .. 100 steps; a scheme that is reversible only to O(dt^3) misses by 1e-7 .. 1e-6)",
                        "the energy-error ratio under step halving is 'ok' in [3, 5.5], 'violated' below 2.4 (first order gives 2) or above 12, not judged in between or when the "
                        "errors are at the level of the solver tolerance; the trend of the energy error over the long horizon is 'ok' below half the oscillation amplitude, "
                        "'violated' above three times",
